@@ -27,6 +27,8 @@ enum Ent {
     Dir(&'static str),
     /// (path, target)
     Link(&'static str, &'static str),
+    /// a directory that can be read but not searched (mode rw-------), holding one file `a`
+    Locked(&'static str),
 }
 
 const ENTRIES: &[Ent] = &[
@@ -51,6 +53,9 @@ const ENTRIES: &[Ent] = &[
     Ent::File("éa"),
     Ent::Link("lnk", "a"),
     Ent::Link("dlnk", "sub"),
+    // stat fails with something other than "not found" below these
+    Ent::Link("loop", "loop"),
+    Ent::Locked("lck"),
 ];
 
 /// The reference tree: path (relative to the root /t) -> node kind
@@ -59,6 +64,8 @@ enum Node {
     File,
     Dir,
     Link(String),
+    /// directory without search permission: its entries can be listed, nothing below it can be reached
+    Locked,
 }
 
 fn build_tree(ents: &[Ent]) -> BTreeMap<String, Node> {
@@ -86,6 +93,10 @@ fn build_tree(ents: &[Ent]) -> BTreeMap<String, Node> {
             }
             Ent::Link(p, target) => {
                 t.insert(p.to_string(), Node::Link(target.to_string()));
+            }
+            Ent::Locked(p) => {
+                t.insert(p.to_string(), Node::Locked);
+                t.insert(format!("{p}/a"), Node::File);
             }
         }
     }
@@ -124,9 +135,12 @@ fn resolve(tree: &BTreeMap<String, Node>, path: &str) -> Option<Node> {
         let next = if cur.is_empty() { comp.to_string() } else { format!("{cur}/{comp}") };
         match tree.get(&next)? {
             Node::Link(target) => {
-                // links are only at the top level and point to top-level names
+                // links are only at the top level and point to top-level names; a link to a link
+                // (here: to itself) never resolves
                 cur = target.clone();
-                tree.get(&cur)?;
+                if matches!(tree.get(&cur)?, Node::Link(_)) {
+                    return None;
+                }
             }
             _ => cur = next,
         }
@@ -170,7 +184,8 @@ fn real_dir(tree: &BTreeMap<String, Node>, path: &str) -> Option<String> {
     if cur.is_empty() {
         return Some(cur);
     }
-    matches!(tree.get(&cur)?, Node::Dir).then_some(cur)
+    // (a directory without search permission can still be listed)
+    matches!(tree.get(&cur)?, Node::Dir | Node::Locked).then_some(cur)
 }
 
 fn comp_match(ast: &[At], name: &str) -> bool {
@@ -271,6 +286,11 @@ fn refglob(tree: &BTreeMap<String, Node>, field: &[PC], cwd: &str, noglob: bool)
             }
             if !comp_active {
                 let full = if dir.is_empty() { lit_text.clone() } else { format!("{dir}/{lit_text}") };
+                // `.` and `..` below a directory without search permission: the kernel refuses them,
+                // the simulator resolves them lexically (a matter of C19, not of pathname expansion)
+                if (lit_text == "." || lit_text == "..") && matches!(tree.get(dir.as_str()), Some(Node::Locked)) {
+                    return Ref::Unspecified;
+                }
                 if lit_text == "." {
                     next.push((join("."), Some(dir.clone())));
                     continue;
@@ -339,6 +359,11 @@ fn make_env(ents: &[Ent], cwd: &str, noglob: bool) -> E {
             match e {
                 Ent::File(p) => st.file_system.save(format!("/t/{p}"), Rc::new(RefCell::new(Inode::new([])))).unwrap(),
                 Ent::Dir(p) => st.file_system.save(format!("/t/{p}"), dir()).unwrap(),
+                Ent::Locked(p) => {
+                    st.file_system.save(format!("/t/{p}/a"), Rc::new(RefCell::new(Inode::new([])))).unwrap();
+                    st.file_system.get(format!("/t/{p}").as_str()).unwrap().borrow_mut().permissions = Mode::from_bits_truncate(0o600);
+                    None
+                }
                 Ent::Link(p, t) => st
                     .file_system
                     .save(
@@ -433,7 +458,7 @@ pub fn run(tier: Tier) -> i32 {
     for extra in ["[![.é.]a]", "[![=é=]]*", "[[.é.]]", "[[=é=]a]*", "[![.a.]]", "[[=a=]b]", "[![:alpha:]]", "[[:alpha:]]*", "[![.é.]]a", "[[.-.]a]", "[![.-.]]"] {
         fields.push(extra.chars().collect());
     }
-    for extra in ["[!a]", "[^a]", "[a-b]", "*/a", "*/.a", "s*/a", "*/*", "*/*/a", "sub*/?", "?ub/a", "*/", "./*", "sub/*", "*/..", "*/../*", "sub/../s*", "*/./a", "s*/../.a"] {
+    for extra in ["l*/a", "l??/a", "*/a/", "lck/*", "l*k/?", "*oop", "loop/*", "l*p/a", "[!a]", "[^a]", "[a-b]", "*/a", "*/.a", "s*/a", "*/*", "*/*/a", "sub*/?", "?ub/a", "*/", "./*", "sub/*", "*/..", "*/../*", "sub/../s*", "*/./a", "s*/../.a"] {
         fields.push(extra.chars().collect());
     }
     // a literal backslash followed by wildcards (the backslash itself is always quoted)
@@ -541,7 +566,7 @@ pub fn run(tier: Tier) -> i32 {
     let cov = json!({
         "evaluations": evals.load(Relaxed),
         "distinct_nontrivial": nontrivial.load(Relaxed),
-        "rule": format!("every tree made of <= {max_entries} of 17 entries (files a b ab .a .b - [ * a], directory sub with sub/a sub/.a sub/sub2/a, sibling directories sub.x sub-, symlinks lnk->a and dlnk->sub) plus the full tree, x every field of <= {flen} characters over {{a b * ? [ ] . - /}} (plus longer multi-component fields, multi-byte fields, and brackets holding collating symbols / equivalence classes / character classes of ASCII and non-ASCII characters, plain and complemented) with every quoting mask ('c' and \\c per character for fields <= 3, single positions above), from \"$v\" and from unquoted $v, x cwd at the tree root and in sub, x noglob; expanded by expand_words on a real Env over the simulated file system and compared with refglob (component-wise walk with the reference matcher, leading-period rule, slash only literal, sorted; no match or noglob -> the field with quotes removed). Non-trivial = the expected result differs from the field itself."),
+        "rule": format!("every tree made of <= {max_entries} of 23 entries (files a b ab .a .b - [ * a] and multi-byte names, directory sub with sub/a sub/.a sub/sub2/a, sibling directories sub.x sub-, symlinks lnk->a and dlnk->sub, a symbolic link to itself, a directory without search permission) plus the full tree, x every field of <= {flen} characters over {{a b * ? [ ] . - /}} (plus longer multi-component fields, multi-byte fields, and brackets holding collating symbols / equivalence classes / character classes of ASCII and non-ASCII characters, plain and complemented) with every quoting mask ('c' and \\c per character for fields <= 3, single positions above), from \"$v\" and from unquoted $v, x cwd at the tree root and in sub, x noglob; expanded by expand_words on a real Env over the simulated file system and compared with refglob (component-wise walk with the reference matcher, leading-period rule, slash only literal, sorted; no match or noglob -> the field with quotes removed). Non-trivial = the expected result differs from the field itself."),
         "samples": samples.take(),
         "trees": trees.len(),
         "fields": fields.len(),
